@@ -69,6 +69,9 @@ SpacesPairBad == \E k \in 1..(Len(Diags) - 1) : Diags[k].cls = "subword_spaces" 
                    ~\E i \in At(Diags[k]) \cap Fits(Diags[k]) : \E j \in At(Diags[k + 1]) \cap Fits(Diags[k + 1]) :
                         \/ T(i).stmt # T(j).stmt          \* one of them is reached through a definition
                         \/ i < j /\ Between(i, j) \subseteq {"lparen", "rparen", "lbrack", "rbrack"}
+\* "Previous definition" names the definition that comes first in the file, "Duplicate ..." the later one
+DupOrderBad == \E k \in 1..(Len(Diags) - 1) : Diags[k].cls = "duplicate_def" /\ Diags[k + 1].cls = "previous_def" /\
+                 \E i \in At(Diags[k]) \cap Fits(Diags[k]) : \E j \in At(Diags[k + 1]) \cap Fits(Diags[k + 1]) : i < j
 DupSame == \E k \in 1..(Len(Diags) - 1) : Diags[k].cls = "duplicate_def" /\ Diags[k + 1].cls = "previous_def" /\
               Diags[k].line = Diags[k + 1].line /\ Diags[k].col = Diags[k + 1].col
 
@@ -83,7 +86,7 @@ WarnOnce == Cardinality(WarnIdx) = Cardinality(ObservedW)
 Clean == Structural(case) = {} /\ ~GrayPlainOfSpecialised(case)
 
 Aspects ==
-  (IF BadLocation # {} \/ DupSame \/ SpacesPairBad THEN {"location"} ELSE {}) \cup
+  (IF BadLocation # {} \/ DupSame \/ SpacesPairBad \/ DupOrderBad THEN {"location"} ELSE {}) \cup
   (IF BadSnippet # {} THEN {"snippet"} ELSE {}) \cup
   (IF Clean /\ Obs(case).exit = 0 /\ ObservedW # ExpectedW THEN {"warning_set"} ELSE {}) \cup
   (IF Clean /\ Obs(case).exit = 0 /\ ~WarnOnce THEN {"warning_repeated"} ELSE {}) \cup
